@@ -369,6 +369,37 @@ func (w *world) doOp(op []json.RawMessage) (ok bool, out int, errText string) {
 			return false, 9, "bad role event"
 		}
 		return fin("gov0", w.exec("gov0", ro, m, pb.String(w.addr(fmt.Sprintf("role%d", r))), pb.String("reason")))
+	case 15: // rolevote r k approve : the account of role r casts ONE ballot on the k-th newest open proposal - sent only
+		// while the LIVE role record does not say "available governance admin" (a former / suspended admin, or an account
+		// that never was one); such a ballot must be refused
+		r, k := num(op[1]), num(op[2])
+		var approve bool
+		_ = json.Unmarshal(op[3], &approve)
+		w.rolesOf[r] = true
+		name := fmt.Sprintf("role%d", r)
+		if ok, ret := w.c.View(ro, "GetRoleInfoById", pb.String(w.addr(name))); ok {
+			role := &contracts.Role{}
+			_ = json.Unmarshal(ret, role)
+			if role.Status == governance.GovernanceAvailable || role.Status == governance.GovernanceFreezing {
+				return false, 9, "role is available: ballot not sent"
+			}
+		}
+		pid := w.nthOpen(k, false)
+		if pid < 0 {
+			return false, 9, "no such proposal"
+		}
+		ballot := "reject"
+		if approve {
+			ballot = "approve"
+		}
+		rc := w.exec(name, gv, "Vote", pb.String(w.props[pid]), pb.String(ballot), pb.String("r"))
+		if rc == nil {
+			return false, 9, "no receipt"
+		}
+		if rc.Status == pb.Receipt_SUCCESS {
+			return true, 9, "ballot of an unavailable admin accepted"
+		}
+		return false, 9, string(rc.Ret)
 	case 10: // conclude pid approve
 		var approve bool
 		_ = json.Unmarshal(op[2], &approve)
